@@ -524,7 +524,7 @@ func runC14(c *Ctx) {
 			if code != 1 && !(r.kind == fakeapi.ListErrCanceled && code == 3) {
 				c.Violation("", fmt.Sprintf("Error() = %v does not report the list failure: %s", r.err, what), replay)
 			}
-			if r.kind == fakeapi.ListErr && pkgerrors.Cause(r.err) != fakeapi.ErrList {
+			if r.kind == fakeapi.ListErr && pkgerrors.Cause(r.err) != fakeapi.ErrList && !errors.Is(r.err, fakeapi.ErrList) {
 				c.Violation("", fmt.Sprintf("Error() = %v: its cause is not the error List returned: %s", r.err, what), replay)
 			}
 			if r.k == 1 && r.ready {
